@@ -1,0 +1,55 @@
+//go:build verif
+
+// Contracts for govc (/verif): C34 custodian updates are accepted only in canonical, fully signed form.
+// Comment-only file. kernel/custodian.go.
+
+package kernel
+
+// CustodianAt(store, ts): what the store answers for ReadCustodian(ts) while this snapshot is validated (store not modelled).
+//@ uninterp CustodianAt(store storage.Store, ts uint64) *common.CustodianUpdateRequest
+
+// ASSUMED interface methods of the store (type invariants only):
+//   ReadCustodian: a record that is returned carries its custodian address. It may be ABSENT (nil, nil) when no custodian
+//   record is as old as ts (observed on the real store for ts == Epoch: the genesis custodian record sits at Epoch+1).
+//   kernel/custodian.go dereferences the result WITHOUT a nil test (common/custodian.go has one): see the
+//   `requires [custodian-available]` of validateCustodianUpdateNodes, established by genesis (record at Epoch+1, records are never deleted).
+//   ReadAllNodes: the list has no nil element and every node has its addresses (struct fields, no pointers).
+//@ assume func (recv storage.Store) ReadCustodian(ts)
+//@   modifies nothing
+//@   ensures err == nil ==> result0 == CustodianAt(recv, ts)
+//@   ensures err == nil && result0 != nil ==> result0.Custodian != nil
+//@ assume func (recv storage.Store) ReadAllNodes(threshold, withState)
+//@   modifies nothing
+//@   ensures forall k int :: 0 <= k && k < len(result) ==> result[k] != nil
+
+// ASSUMED (C29 owns the election): side-effect free; panics (explicitly) when fewer than 7 accepted nodes exist before `now`.
+// NodesListWithoutState(now, true) only returns a sequence whose timestamp is < now and every node state timestamp is >= the
+// genesis epoch, so for the five elected operations a normal return implies now > Epoch (at now == Epoch it panics: observed).
+//@ -- electSnapshotNode: verified contract in zz_contracts_c29_verif.go (its `now > Epoch` consequence is an `assumes` clause there)
+// ASSUMED: node id derivation is a function of the node's signer address and the network id.
+//@ assume func (n *common.Node) IdForNetwork
+//@   requires n != nil
+//@   modifies nothing
+
+//@ func (node *Node) validateCustodianUpdateNodes
+//@   property C28, C34
+//@   trustpre electSnapshotNode PayloadHash PayloadMarshal -- membership view and payload well-formedness belong to C29/C06
+//@   requires node != nil && s != nil && tx != nil && node.persistStore != nil
+//@   requires [custodian-available] forall ts uint64 :: ts > node.Epoch ==> CustodianAt(node.persistStore, ts) != nil
+//@   maypanic
+//@   unreachable return@6 -- `timestamp < node.Epoch` cannot happen after electSnapshotNode returned (its assumed contract: now > Epoch)
+//@   unreachable return@16 -- `len(curs.Nodes) < 7` cannot happen: the parser already rejected extras shorter than 64+7*353+64 bytes
+//@   modifies ghost kernel_caches_and_store
+//@   ensures [canonical] err == nil ==> len(tx.Extra) >= 2599 && (len(tx.Extra) - 128) % 353 == 0
+//@   ensures [approval] err == nil ==> exists ts uint64 :: ts >= node.Epoch && (s.Timestamp != 0 ==> ts == s.Timestamp) &&
+//@       common.ApprovalOK(CustodianAt(node.persistStore, ts).Custodian, tx.Extra)
+//@   -- [entries]: an accepted update is a list of signed, sorted, unique entries (curs: the parse of tx.Extra, see common.Describes / common.CanonicalNodes)
+//@   ensures [entries] err == nil ==> exists curs *common.CustodianUpdateRequest :: {curs.Nodes} common.Describes(curs, tx.Extra) && common.CanonicalNodes(curs)
+//@   hint return [entries-local] err == nil ==> common.Describes(curs, tx.Extra) && common.CanonicalNodes(curs)
+//@   loop 0 invariant forall k int :: 0 <= k && k < len(all) ==> all[k] != nil
+//@   loop 0 invariant forall h crypto.Hash :: has(filter, h) ==> filter[h] != nil
+//@   loop 1 invariant forall h crypto.Hash :: has(filter, h) ==> filter[h] != nil
+//@   -- the second loop only writes its own temporaries (id, sig): every byte block that existed when it was entered is unchanged
+//@   loop 1 invariant [kept] forall p *crypto.Key :: {*p} loopentry(allocated(p)) ==> *p == loopentry(*p)
+//@   loop 1 invariant timestamp >= node.Epoch && (s.Timestamp != 0 ==> timestamp == s.Timestamp) &&
+//@       common.ApprovalOK(CustodianAt(node.persistStore, timestamp).Custodian, tx.Extra)
